@@ -446,6 +446,7 @@ class World:
         X.random = rshim
         CONF.random = rshim
         IKESA.time = types.SimpleNamespace(time=lambda: w.now)
+        self._install_dh()
         IKESA.traceback = types.SimpleNamespace(print_exc=lambda *a, **k: None)
         X.Xfrm.send_recv = classmethod(lambda cls, pt, fl, payload, attributes=None: w.current.kernel.request(pt, fl, payload, attributes))
         X.Xfrm.get_socket = classmethod(lambda cls: FakeXfrmSock(w))
@@ -473,10 +474,41 @@ class World:
             logging.root.setLevel(logging.DEBUG)
             logging.root.addHandler(self.capture)
 
+    def _install_dh(self):
+        """Diffie-Hellman private keys from the seeded PRNG (the `dh` / `ec` names inside crypto.py are replaced by proxies of the
+        cryptography library objects; the arithmetic stays OpenSSL's), so that a schedule replays octet for octet"""
+        import crypto as C
+        w = self
+        rdh, rec = C.dh, C.ec
+        self._saved['crypto.dh'], self._saved['crypto.ec'] = rdh, rec
+
+        class PN:
+            def __init__(self, p, g):
+                self.real = rdh.DHParameterNumbers(p, g)
+                self.p, self.g = p, g
+
+            def parameters(self, backend=None):
+                pn = self
+
+                class Params:
+                    def generate_private_key(self_inner):
+                        x = w.rnd.getrandbits(320) + 2
+                        pub = rdh.DHPublicNumbers(pow(pn.g, x, pn.p), pn.real)
+                        return rdh.DHPrivateNumbers(x, pub).private_key()
+                return Params()
+        C.dh = types.SimpleNamespace(DHParameterNumbers=PN, DHPublicNumbers=lambda y, pn: rdh.DHPublicNumbers(y, pn.real))
+        C.ec = types.SimpleNamespace(
+            generate_private_key=lambda curve, backend=None: rec.derive_private_key(w.rnd.getrandbits(curve.key_size - 2) + 1, curve),
+            SECP256R1=rec.SECP256R1, SECP384R1=rec.SECP384R1, SECP521R1=rec.SECP521R1, ECDH=rec.ECDH,
+            EllipticCurvePublicNumbers=rec.EllipticCurvePublicNumbers)
+
     def close(self):
         s = self._saved
         if not s:
             return
+        if 'crypto.dh' in s:
+            import crypto as C
+            C.dh, C.ec = s['crypto.dh'], s['crypto.ec']
         os.urandom = s['urandom']
         M.SystemRandom = s['SystemRandom']
         IKESA.random, IKESA.time = s['ikesa.random'], s['ikesa.time']
